@@ -30,6 +30,8 @@ class C14(WrapHarness):
         # (the property is stated for empty indents: no indent variants here)
         tb = {'feat': 'full', 'algo': 'F', 'sep': 'A', 'split': 'H', 'bw': True, 'le': 'LF'}
         out += std_tmpl_spaces(tb, q, variants=False)
+        # width measured twice: once by break_apart (per character), once by Word::from on the second pass
+        out += tmpl_spaces(tb, ['lastpiece'], variant=0)      # positions fixed for every VERIF_SEED
         if not q:
             out += tmpl_spaces(dict(tb, bw=False), ['sentence', 'paras', 'hyphens', 'wide'])
             out += tmpl_spaces(dict(tb, le='CRLF'), ['paras', 'crlf'])
